@@ -377,6 +377,9 @@ pub fn run(ctx: &mut Ctx) {
         }
         // Hayson: the library's own document for the value (spelling variations come with C05), and mutants
         let v = to_value_with(&m, rng.next_u64());
+        // the reference writer's spelling of the same value (member orders, optional members, number spellings)
+        let (rdoc, _) = crate::refjson::write_hayson(&mut rng, &m, true);
+        json_fixed_point(ctx, &rdoc, "hayson-ref");
         if let Ok(doc) = serde_json::to_string(&v) {
             json_fixed_point(ctx, &doc, "hayson");
             for _ in 0..6 {
